@@ -674,6 +674,6 @@ func init() {
 				{Name: "concurrent", Mode: "concurrent", Shards: 8, Timeout: 60 * time.Minute},
 			}
 		},
-		Rule:        "Model pass: 1600 (24000) sequences of 30 (60) operations over 3-6 DAG names drawn from a hostile pool (spaces, glob metacharacters * ? [ ] \\, dots, the compaction suffix, a timestamp look-alike, unicode): create, save (valid generated definitions, minimal, 5 kB / 1 MiB, empty, four kinds of invalid text), rename (onto free and onto existing names, of missing DAGs), delete, list, and recorded runs (real jsondb Open/Write*/Close with unique write ids) — one third of the operations through the assembled web API (POST /dags, POST action save/rename, DELETE), the rest through client.Client. After EVERY operation the whole observable state is compared with a reference model: bytes of every definition (file and GetDAGSpec), the set of definition files, the history of every DAG (request id -> last write id through ReadStatusRecent), no history under names that were renamed away or deleted. Crash pass (fault enumeration): a worker process performing UpdateSpec / client.UpdateDAG is SIGKILLed by the ptrace supervisor before EVERY watched system call of the save under the DAGs directory, and every write is torn at 1/2 (thorough: 1 byte, 1/4, 1/2, L-1), for 4 (8) old/new size pairs; the surviving file must hold the complete old or the complete new text (the new one if the save was acknowledged), a bystander definition must be unchanged. The same positions are then replayed with an I/O error instead of a kill (the system call returns ENOSPC and the process runs on): a save that reports failure must have left the complete old text, one that reports success the new text. Non-trivial = every sequence / every delivered kill; distinct = (sequence ops) / (pair, k, tear).",
+		Rule:        "Model pass: 1600 (24000) sequences of 30 (60) operations over 3-6 DAG names drawn from a hostile pool (spaces, glob metacharacters * ? [ ] \\, dots, the compaction suffix, a timestamp look-alike, unicode): create, save (valid generated definitions, minimal, 5 kB / 1 MiB, empty, four kinds of invalid text), rename (onto free and onto existing names, of missing DAGs, onto the DAG own name plain and with .yaml), delete, list, and recorded runs (real jsondb Open/Write*/Close with unique write ids) — one third of the operations through the assembled web API (POST /dags, POST action save/rename, DELETE), the rest through client.Client. After EVERY operation the whole observable state is compared with a reference model: bytes of every definition (file and GetDAGSpec), the set of definition files, the history of every DAG (request id -> last write id through ReadStatusRecent), no history under names that were renamed away or deleted. Crash pass (fault enumeration): a worker process performing UpdateSpec / client.UpdateDAG is SIGKILLed by the ptrace supervisor before EVERY watched system call of the save under the DAGs directory, and every write is torn at 1/2 (thorough: 1 byte, 1/4, 1/2, L-1), for 4 (8) old/new size pairs; the surviving file must hold the complete old or the complete new text (the new one if the save was acknowledged), a bystander definition must be unchanged. The same positions are then replayed with an I/O error instead of a kill (the system call returns ENOSPC and the process runs on): a save that reports failure must have left the complete old text, one that reports success the new text. Non-trivial = every sequence / every delivered kill; distinct = (sequence ops) / (pair, k, tear).",
 		Assumptions: []string{"validity of a candidate text is decided by construction (generated valid documents vs. syntax error / unknown field / nameless step / impossible cron); the empty text is not judged", "SIGKILL semantics: user-space buffers are lost, the page cache is not"}})
 }
